@@ -221,6 +221,33 @@ func NullMagicScalar(t ScalarType) MagicScalar {
 
 /* -------------------------------------------------------------------------- */
 
+// True if the value and all derivatives of a are zero.
+func isNullScalar(a ConstScalar) bool {
+  if a.GetFloat64() != 0.0 {
+    return false
+  }
+  if a.GetOrder() >= 1 {
+    n := a.GetN()
+    for i := 0; i < n; i++ {
+      if a.GetDerivative(i) != 0.0 {
+        return false
+      }
+    }
+    if a.GetOrder() >= 2 {
+      for i := 0; i < n; i++ {
+        for j := 0; j < n; j++ {
+          if a.GetHessian(i, j) != 0.0 {
+            return false
+          }
+        }
+      }
+    }
+  }
+  return true
+}
+
+/* -------------------------------------------------------------------------- */
+
 func Variables(order int, reals ...MagicScalar) error {
   for i, _ := range reals {
     if err := reals[i].SetVariable(i, len(reals), order); err != nil {
